@@ -187,11 +187,18 @@ func Sleep(d time.Duration) {
 // Detect replaces a call of the pool's health probe (a real network round trip): the world answers.
 func Detect(addr string, real func() error) error {
 	check(curThread)
+	if RealDetect && real != nil {
+		// the REAL probe body (dial + PING through the proxy's own redis client) over an in-memory connection to the node
+		return real()
+	}
 	if DetectHook != nil {
 		return DetectHook(addr)
 	}
 	return nil
 }
+
+// RealDetect: health probes run the real detect() body over RedisDial (set by the world once RedisDialHook is in place).
+var RealDetect bool
 
 // --- world side ---
 
